@@ -20,6 +20,8 @@ structure St where
   cur : Option Core
   classes : List (Bytes × ValClass)
   mcur : Option (Core × List Nat × List (Nat × Nat)) := none    -- module-call world: chain B, receipts, acknowledgements
+  ccur : Option Core := none    -- committed-chain world (every operation is a block through DeliverTx + Commit)
+  cskip : Bool := false         -- committed-chain world after a slash
   skip : Bool := false      -- after a `slash` (exchange rate ≠ 1): outputs are not compared until the next `reset`
   mask : Bool := false      -- after `allocate` (rewards outstanding): balances and supply are not compared
 
@@ -196,8 +198,8 @@ def dump (c : Core) : String :=
   let bs := joinWith "," ((c.actors ++ [n.bondedPool, n.notBondedPool, c.fee]).map (fun a => toString (nbal n a)))
   let sup := (alookup n.bank.supply n.bond).getD 0
   let ds := sortS (n.dels.map (fun d => s!"{hex d.1.1}/k{d.1.2}={d.2}"))
-  let us := sortS (n.ubds.map (fun d => s!"{hex d.1.1}/k{d.1.2}={joinWith "+" (d.2.map toString)}"))
-  let rs := sortS (n.reds.map (fun d => s!"{hex d.1.1}/k{d.1.2.1}>k{d.1.2.2}={joinWith "+" (d.2.map toString)}"))
+  let us := sortS (n.ubds.map (fun d => s!"{hex d.1.1}/k{d.1.2}={joinWith "+" (d.2.map (fun e => toString e.1))}"))
+  let rs := sortS (n.reds.map (fun d => s!"{hex d.1.1}/k{d.1.2.1}>k{d.1.2.2}={joinWith "+" (d.2.map (fun e => toString e.1))}"))
   let vs := sortS (n.votes.map (fun v => s!"{v.1.1}/{hex v.1.2}={joinWith "+" (v.2.map (fun ow => s!"{ow.1}*{ow.2}"))}"))
   s!"C:{cs} B:{bs} S:{sup} D:{joinOr ds} U:{joinOr us} R:{joinOr rs} V:{joinOr vs} G:{c.deposits}"
 
@@ -236,6 +238,7 @@ def parseInit (fs : List String) : Option Core := do
     | [i, b] => do pure (← i.toNat?, b != "0")
     | _ => none)
   let deposits ← kv fs "deposits"
+  let unb := ((kv fs "unbonding").bind (·.toNat?)).getD 0
   let vb := match kv fs "valbonded" with
     | some v => (csv v).map (· != "0")
     | none => []
@@ -243,7 +246,8 @@ def parseInit (fs : List String) : Option Core := do
   | [bp, nbp, fc] =>
     pure { st := { evm := [], native := { bank := { bal := bal, supply := supply, modules := modules }, bond := str bond,
                                            bondedPool := bp, notBondedPool := nbp, valTokens := vt, valBonded := vb, dels := [], ubds := [],
-                                           reds := [], props := props, votes := [] } },
+                                           reds := [], props := props, votes := [], unbondingTime := unb, feeAddr := fc,
+                                           distrAddr := ((modules.find? (·.1 == "distribution")).map (·.2)).getD [] } },
            actors := actors, proxies := proxies, fee := fc, deposits := deposits }
   | _ => none
 
@@ -304,7 +308,8 @@ def stepCore (st : St) (line : String) : St × String :=
     | some c, some sender, some ((node, cl), []) =>
       let classes := cl ++ st.classes
       let r := deliverTx (mkEnv classes) c.st { sender := sender, root := node }
-      ({ st with classes := classes }, statusStr r.1.2)
+      let _ := r
+      ({ st with classes := classes }, "done")      -- nothing is compared (payouts can decide even the status)
     | _, _, _ => (st, "bad-op")
   | "hook" :: k :: rest =>
     match st.cur, k.toNat? with
@@ -344,8 +349,45 @@ def stepCore (st : St) (line : String) : St × String :=
       let c' := { c with st := { c.st with native := { n with bank := bk } } }
       ({ st with cur := some c' }, "ok " ++ dump c')
     | _, _, _ => (st, "bad-op")
-  | ["slash", _, _] => ({ st with skip := true }, "ok")      -- oracle-only from here to the next reset
-  | ["allocate"] => ({ st with mask := true }, "ok")
+  | "slash" :: _ => ({ st with skip := true }, "ok")      -- oracle-only from here to the next reset
+  | ["block", dt] =>       -- EndBlock of the current height, BeginBlock of the next one `dt` ns later
+    match st.cur, dt.toNat? with
+    | some c, some dt =>
+      let c' := { c with st := { c.st with native := beginBlock (endBlock c.st.native) dt } }
+      ({ st with cur := some c' }, "ok " ++ dump c')
+    | _, _ => (st, "bad-op")
+  | "dry" :: from_ :: rest =>      -- the transaction on a context that is dropped: status only, state untouched
+    match st.cur, unhex from_, pNode (rest.length + 1) rest with
+    | some c, some sender, some ((node, cl), []) =>
+      let classes := cl ++ st.classes
+      let r := deliverTx (mkEnv classes) c.st { sender := sender, root := node }
+      ({ st with classes := classes }, statusStr r.1.2 ++ " " ++ dump c)
+    | _, _, _ => (st, "bad-op")
+  | "cinit" :: fs =>
+    match parseInit fs with
+    | some c => ({ st with ccur := some c, cskip := false }, "ok " ++ dump c)
+    | none => (st, "bad-op")
+  | "dtx" :: dt :: from_ :: rest =>    -- one block: BeginBlock (dt later), the transaction through DeliverTx, EndBlock, Commit
+    match st.ccur, dt.toNat?, unhex from_, pNode (rest.length + 1) rest with
+    | some c, some dt, some sender, some ((node, cl), []) =>
+      if st.cskip then (st, "skip") else
+      let classes := cl ++ st.classes
+      let s0 : State Native := { c.st with native := beginBlock c.st.native dt }
+      let r := deliverTx (mkEnv classes) s0 { sender := sender, root := node }
+      let s1 : State Native := { r.1.1 with native := endBlock r.1.1.native }
+      let c' := { c with st := s1 }
+      ({ st with ccur := some c', classes := classes }, statusStr r.1.2 ++ " " ++ dump c')
+    | _, _, _, _ => (st, "bad-op")
+  | ["restart"] =>                     -- node restart / export + InitChain: the identity on everything observed
+    match st.ccur with
+    | some c => (st, if st.cskip then "skip" else "ok " ++ dump c)
+    | none => (st, "bad-op")
+  | ["reimport"] =>
+    match st.ccur with
+    | some c => (st, if st.cskip then "skip" else "ok " ++ dump c)
+    | none => (st, "bad-op")
+  | "cslash" :: _ => ({ st with cskip := true }, "ok")
+  | ["allocate"] => ({ st with skip := true }, "ok")
   | ["govburn"] => (st, "ok")
   | _ => (st, "bad-op")
 
@@ -356,7 +398,7 @@ def maskOut (out : String) : String :=
 def step (st : St) (line : String) : St × String :=
   let world1 := match fields line with
     | "tx" :: _ => true | "hook" :: _ => true | "burn" :: _ => true | "fund" :: _ => true | "rewardtx" :: _ => true
-    | "govburn" :: _ => true | "slash" :: _ => true | "allocate" :: _ => true
+    | "govburn" :: _ => true | "slash" :: _ => true | "allocate" :: _ => true | "block" :: _ => true | "dry" :: _ => true
     | _ => false
   if st.skip && world1 then (st, "skip")
   else
